@@ -93,7 +93,8 @@ struct enum_s {
 	uint8_t nH, nM, nS;
 	uint8_t H[24U];
 	uint8_t M[60U];
-	uint8_t S[60U];
+	/* 60 is a second, too */
+	uint8_t S[61U];
 };
 
 #define ENUM_INIT(e, s, ...)		size_t s = 0U, ENUM_INIT_M(e, ## __VA_ARGS__, auto_m)
